@@ -4,14 +4,14 @@ CONSTANTS
   MaxSolids = 1
   MaxSides = 7
   MaxOuts = 1
-  MaxVis = 2
-  MaxGroups = 1
+  MaxVis = 3
+  MaxGroups = 2
   MaxCams = 1
   MaxCordons = 1
-  Lens = {3}
+  Lens = {2}
   WithHist = FALSE
-  OptChoices <- OptMc2
-  Rich = FALSE
+  OptChoices <- OptMc
+  Rich = TRUE
 INVARIANT FixedPoint
 INVARIANT NoLoss
 INVARIANT UniqueIds
